@@ -139,6 +139,20 @@ fn phase1(
             };
             let pb = proj(&b);
             if pb != sp {
+                // the branch of the en-passant don't-care the library does not take: the square is recorded in the spec's state
+                // although nobody can capture there, and the library's reader drops it (as its move maker does, or this state
+                // would have been reached by moves) - the library has no such state; its twin without the square is examined
+                let mut twin = sp;
+                twin.ep = -1;
+                let ep_usable = rec["mv"].as_array().unwrap().iter().any(|mv| {
+                    let f = mv[0].as_i64().unwrap() as usize;
+                    let t = mv[1].as_i64().unwrap() as i8;
+                    (sp.sq[f] == b'P' || sp.sq[f] == b'p') && t == sp.ep && (f as i8 & 7) != (t & 7)
+                });
+                if sp.ep >= 0 && pb == twin && !ep_usable {
+                    rep.count("dont_care_states_the_library_does_not_represent", 1);
+                    return vec![];
+                }
                 if has(cfg, "C06") {
                     rep.violation(
                         "C06",
@@ -667,6 +681,17 @@ fn phase2(cfg: &Cfg, it: &Item, idx: u64, rep: &mut Report) {
                         if ans { "legal_query_true_for_illegal" } else { "legal_query_false_for_legal" },
                         json!({"fen": fen, "moves": [[f, t, p]]}),
                     );
+                }
+            }
+        }
+    }
+
+    // move VALUES outside the 20480 triples (a "promotion" to pawn or king): never legal.  Beyond C01's wording: a NOTE.
+    if has(cfg, "C01") {
+        for m in spec.iter() {
+            for p in ["p", "k"].iter() {
+                if b.legal(mk_move(m.0, m.1, p)) {
+                    rep.violation("SPEC", "legal_query_true_for_a_promotion_to_pawn_or_king", json!({"fen": fen, "move": [m.0, m.1, p]}));
                 }
             }
         }
